@@ -35,6 +35,7 @@ struct Client {
     eof_ms: Option<u128>,
     my_pings: usize,
     my_pongs: usize,
+    stray_pongs: usize,
 }
 
 pub fn check(c: &KaCase, st: &mut Stats) -> Result<(), Viol> {
@@ -95,6 +96,7 @@ pub fn check(c: &KaCase, st: &mut Stats) -> Result<(), Viol> {
             eof_ms: None,
             my_pings: 0,
             my_pongs: 0,
+            stray_pongs: 0,
         });
         // stagger registrations a little
         if s.chance(50) {
@@ -155,6 +157,17 @@ pub fn check(c: &KaCase, st: &mut Stats) -> Result<(), Viol> {
                 clients[ci].eof_ms = Some(now);
                 log.push(format!("t={} {} EOF", now, clients[ci].nick));
                 continue;
+            }
+            // an unsolicited PONG while no server PING is outstanding (and none is due within the
+            // next moments) answers nothing: it must not count for a later PING
+            if clients[ci].first_unanswered.is_none() && clients[ci].answered == clients[ci].pings.len() && s.chance(15) {
+                let next_ping = clients[ci].reg_ms + (clients[ci].pings.len() as u128 + 1) * p as u128 * 1000;
+                if now + 50 < next_ping {
+                    w.send_line(conn, "PONG :nobody asked");
+                    w.settle();
+                    clients[ci].stray_pongs += 1;
+                    log.push(format!("t={} {} > PONG :nobody asked (unsolicited)", now, clients[ci].nick));
+                }
             }
             // unrelated traffic: the client's own PINGs and messages do not count as answers
             if (tick + ci as u64) % 3 == 0 && s.chance(40) {
@@ -309,6 +322,39 @@ pub fn check(c: &KaCase, st: &mut Stats) -> Result<(), Viol> {
                         }
                     }
                 }
+            }
+        }
+    }
+    // a client the keep-alive has disconnected is gone for everybody: a fresh connection does not
+    // find its nick any more, and finds every client that is still connected
+    let gone: Vec<String> = clients.iter().filter(|c| c.eof_ms.is_some()).map(|c| c.nick.clone()).collect();
+    let alive: Vec<String> = clients.iter().filter(|c| c.eof_ms.is_none()).map(|c| c.nick.clone()).collect();
+    if !gone.is_empty() {
+        let pc = w.connect();
+        w.send_line(pc, "NICK kprobe");
+        w.send_line(pc, "USER up 0 * :Probe");
+        w.settle();
+        w.drain(pc);
+        let all: Vec<String> = clients.iter().map(|c| c.nick.clone()).collect();
+        w.send_line(pc, &format!("ISON {}", all.join(" ")));
+        w.settle();
+        let ls = w.drain(pc);
+        let present: Vec<String> = ls
+            .iter()
+            .filter(|l| l.contains(" 303 "))
+            .flat_map(|l| l.rsplit(':').next().unwrap_or("").split(' ').map(|x| x.to_string()).collect::<Vec<_>>())
+            .filter(|x| !x.is_empty())
+            .collect();
+        st.count("gone_probes");
+        log.push(format!("t={} probe: ISON {} -> {:?}", w.now_ms(), all.join(" "), present));
+        for g in &gone {
+            if present.contains(g) {
+                return Err(fail("C17.dropped_client_is_gone", "ghost-after-timeout".into(), format!("{} was disconnected by the keep-alive but its nick is still registered (ISON lists it)", g), &log));
+            }
+        }
+        for a in &alive {
+            if !present.contains(a) {
+                return Err(fail("C17.responder_kept", "responder-vanished".into(), format!("{} is still connected but ISON does not list it", a), &log));
             }
         }
     }
